@@ -3,9 +3,9 @@ import PyaModel.Core.NodeCopy
 # Proofs/C16Routes — the pinned registry of fix routes
 
 Hand-maintained copy of `Generated/FixRoutes.lean` as regenerated from the tree this check was last adapted to
-(/repo 6363fee).  `fix_routes_registered` (Props/C16.lean) proves the live registry equal to it: a dropped or
-changed guard, a new producer call or a new caller of a producer breaks that obligation, which sends the check
-into its widened search.  After a reviewed change of the producers: copy the regenerated table here.
+(/repo HEAD after 2d2e8a7 / efac5a4).  `fix_routes_registered` (Props/C16.lean) proves the live registry equal to it: a
+dropped or changed guard, a new producer call or a new caller of a producer breaks that obligation, which sends the
+check into its widened search.  After a reviewed change of the producers: copy the regenerated table here.
 -/
 namespace Pya.C16
 
